@@ -1233,13 +1233,22 @@ func (r *RIBHolder) GetNextHopGroup(id uint64) (*aft.Afts_NextHopGroup, bool) {
 
 // candidateRIB takes the input set of Afts and returns them as a aft.RIB pointer
 // that can be merged into an existing RIB.
-func candidateRIB(a *aftpb.Afts) (*aft.RIB, error) {
+func candidateRIB(a *aftpb.Afts) (nr *aft.RIB, err error) {
+	// The libraries used to map the protobuf can panic on contents that they do not
+	// expect (e.g., undefined enumerated values). An input message must never be able
+	// to take down the server, so such entries are reported as invalid.
+	defer func() {
+		if p := recover(); p != nil {
+			nr, err = nil, fmt.Errorf("invalid RIB %s, cannot be parsed: %v", a, p)
+		}
+	}()
+
 	paths, err := protomap.PathsFromProto(a)
 	if err != nil {
 		return nil, err
 	}
 
-	nr := &aft.RIB{}
+	nr = &aft.RIB{}
 	for p, v := range paths {
 		sv, err := value.FromScalar(v)
 
